@@ -71,6 +71,18 @@ func init() {
 // runIter drives the real iterator: the two draws are read off the global source after seeding it,
 // then the source is re-seeded so that newRangeIterator sees exactly those draws.
 func runIter(n int64, s int64, k int) (r1, r2 int64, out string) {
+	// a panic of the constructor or of Next is an outcome of this input (the property: "terminates, emits a
+	// permutation"), not a crash of the component
+	defer func() {
+		if e := recover(); e != nil {
+			out = "PANIC " + strings.Map(func(c rune) rune {
+				if c == '\t' || c == '\n' {
+					return ' '
+				}
+				return c
+			}, fmt.Sprint(e))
+		}
+	}()
 	rand.Seed(s)
 	r1, r2 = rand.Int63(), rand.Int63()
 	rand.Seed(s)
